@@ -143,7 +143,11 @@ func exportComplete(c *Ctx, mods ...string) {
 			}
 		}
 	}
-	r.Floor("collecting callbacks and loops on genesis export routes", n, 4)
+	floorN := 4
+	if len(mods) < 4 {
+		floorN = 1 // (run for one module by the property that module's books belong to)
+	}
+	r.Floor("collecting callbacks and loops on genesis export routes", n, floorN)
 }
 
 // callbackBody: the function a function value stands for — the literal itself, or the method behind a bound method
